@@ -37,6 +37,9 @@ def run(ctx, rep):
     rep.rule('R-C19-6', '--force-nocopy invalidates inherited hashes on load; -N is rejected together with -h/-F/-R', 2)
 
     C04.memhash_pairing(P, rep, 'R-C19-1p')
+    from .C11 import nsec_alternatives
+    rep.rule('R-C19-7', 'scan_file: a file is kept (parity and hashes reused) with a different nanosecond stamp only when the recorded value is STAT_NSEC_INVALID', 2)
+    nsec_alternatives(P, rep, 'R-C19-7')
     # ---- R-C19-1
     f = P.fn('state_import_fetch')
     rep.analysed(f)
